@@ -86,8 +86,10 @@ def run_case(spec, work):
     if r['exception'] is not None:
         sig, last = oracles.exception_signature(r['traceback'],
                                                 r.get('stderr'))
-        return {'violations': [], 'inconclusive': f'base raised {sig}',
-                'counters': {}, 'features': None, 'nontrivial': False}
+        return {'violations': [{
+                    'sig': f'C06:mapping-raised-on-valid-input:{sig}',
+                    'msg': f'base run raised: {last}'}],
+                'counters': {}, 'features': ['raised'], 'nontrivial': True}
     base = {rec['cell_id']: rec for rec in r['json']['results']}
     # near-tie cells from the independent oracle
     amb = set()
